@@ -64,7 +64,7 @@ deriving Repr, Inhabited
 
 inductive Op where
   | sched (spec : RawSpec) (clock : Int)
-  | ctor (spec : RawSpec) (clock : Int)
+  | ctor (spec : RawSpec) (clock : Int) (jobTz : Option Int)
   | exec (clock : Int) (force : Bool) (order : List Nat) (raises : List Nat) (scripts : List (Nat × List COp))
   | del (key : Nat)
   | delTags (tags : List Nat) (any : Bool)
@@ -250,7 +250,17 @@ def execJobs (s : State) (clock : Int) (force : Bool) (order : List Nat) (raises
 
 def step (s : State) : Op → State × Out
   | .sched sp clock => let (s', r) := schedule s sp clock; (s', { res := r })
-  | .ctor sp clock => let (s', r) := schedule s sp clock true; (s', { res := r })
+  | .ctor sp clock jobTz =>
+      -- the job is created with its own tzinfo; `Scheduler.__init__` raises when it differs
+      if jobTz == s.tz then
+        let (s', r) := schedule s sp clock true; (s', { res := r })
+      else
+        match createJobDirect jobTz sp clock with
+        | .error e => (s, { res := .err e })
+        | .ok j =>
+            -- the Job object exists, but the scheduler refuses it
+            let sj : SJob := { key := s.heap.length, job := j, tags := dedup sp.tags, weight := sp.weight, payload := sp.payload }
+            ({ s with heap := s.heap ++ [sj] }, { res := .err .schedulerError })
   | .exec clock force order raises scripts => execJobs s clock force order raises scripts
   | .del k => let (s', r) := deleteJob s k; (s', { res := r })
   | .delTags q any => let (s', r) := deleteJobs s q any; (s', { res := r })
